@@ -153,6 +153,7 @@ def make_worker_setup(verb, meth, mode):
         del it.ctx.vcs[n_before:]
         sess.owned_streams = []
         sess.track_detach = True
+        sess.phase = 2  # from here on the spawned task runs; the command phase is over
         if verb in ("list", "mlsd"):
             # C07 ghost: record which line the real formatter returned for which entry (the formatter itself runs inline)
             fmt = "build_list_string" if verb == "list" else "build_mlsx_string"
